@@ -163,6 +163,8 @@ func Convert(value any, typ reflect.Type) (any, error) { //nolint: gocyclo
 			return nil, conversionError("", value, typ)
 		}
 		for _, key := range rv.MapKeys() {
+			// look the element up under the original key, before the key is converted
+			ev := rv.MapIndex(key)
 			if typ.Key().Kind() == reflect.String {
 				key = reflect.ValueOf(fmt.Sprint(key))
 			}
@@ -170,7 +172,6 @@ func Convert(value any, typ reflect.Type) (any, error) { //nolint: gocyclo
 				return nil, conversionError("map key", key, typ.Key())
 			}
 			key = key.Convert(typ.Key())
-			ev := rv.MapIndex(key)
 			if et.Kind() == reflect.String {
 				ev = reflect.ValueOf(fmt.Sprint(ev))
 			}
